@@ -1,5 +1,16 @@
+"""ripemd.ripemd160 stand-in: delegates to OpenSSL's RIPEMD-160 through hashlib."""
+
 import hashlib
 
+digest_size = 20  # pylint: disable=invalid-name
 
-def new(data=b''):
-	return hashlib.new('ripemd160', data)
+
+def new(data=None):
+	hasher = hashlib.new('ripemd160')
+	if data:
+		hasher.update(data)
+	return hasher
+
+
+def ripemd160(data):
+	return new(data).digest()
